@@ -39,7 +39,9 @@ def bounds(tier):
         "history_depth": "3" if tier == "quick" else "3 for all palettes and initial lists; 4 from the three 3-atom initial lists for one seed-selected palette",
         "max_atoms": MAX_N,
         "initial_lists": len(INITS),
-        "palettes": 1 if tier == "quick" else len(PALETTES),
+        "palettes": "1 seed-selected at full depth; the other 4 standard pairs at depth 2; all other 50 unordered "
+                    "pairs of the 10 bond-type values at depth 1" if tier == "quick" else
+                    "5 standard pairs at full depth; all other 50 unordered pairs of the 10 bond-type values at depth 1",
         "construct_rows": "<=2 rows n<=4, 3 rows n<=2" if tier == "quick" else "<=3 rows n<=3, 2 rows n=4",
     }
 
@@ -653,6 +655,23 @@ def shards(tier, seed):
         for init in ("i_empty3", "i_chain3", "i_tri3"):
             for r in range(NRES):
                 out.append({"kind": "history", "init": init, "pal": list(pal4), "res": r, "depth": 4})
+    # every other pair of bond-type values: the type-mapping operations (remove_aromaticity,
+    # remove_bond_order, merge precedence) depend on the VALUE of the type, so each palette the
+    # deep search above does not use is still walked at depth 2 (the five standard ones) or
+    # depth 1 (all 55 - 5 remaining unordered pairs, equal types included)
+    deep = {tuple(p) for p in pals}
+    for pal in PALETTES:
+        if tuple(pal) not in deep:
+            for init in INITS:
+                out.append({"kind": "history", "init": init, "pal": list(pal), "res": 0, "nres": 1, "depth": 2,
+                            "oor": False})
+    std = {tuple(p) for p in PALETTES}
+    for a in range(10):
+        for b in range(a, 10):
+            if (a, b) not in std:
+                for init in INITS:
+                    out.append({"kind": "history", "init": init, "pal": [a, b], "res": 0, "nres": 1, "depth": 1,
+                                "oor": False})
     for pal in pals:
         if tier == "quick":
             specs = [(n, k) for n in range(0, 5) for k in (0, 1, 2)] + [(2, 3)]
@@ -770,7 +789,8 @@ def run_history(shard, ctx):
         if bad:
             ctx.violation("construct|init|%s" % bad[0][0], "initial list disagrees with model",
                           {"kind": "history", "init": init, "pal": list(pal), "hist": []}, bad[0][1], bad[0][2])
-        check_oor(ctx, init, pal, n0, rows0, [], m0)
+        if shard.get("oor", True):
+            check_oor(ctx, init, pal, n0, rows0, [], m0)
     ctx.state(canon(bl0, m0))
     frontier = [([], m0)]
     for d in range(1, depth + 1):
@@ -781,7 +801,7 @@ def run_history(shard, ctx):
             pend = []
             pre = json.dumps({"k": "h", "init": init, "pal": list(pal), "hist": hist})
             for oi, op in enumerate(ops):
-                if d == 1 and oi % NRES != res:
+                if d == 1 and oi % shard.get("nres", NRES) != res:
                     continue
                 if not ctx.journal(pre + "#" + json.dumps(op)):
                     continue
@@ -801,7 +821,8 @@ def run_history(shard, ctx):
                     pend.append((hist + [op], m2))
                     if d < depth:
                         nxt.append((hist + [op], m2))
-            check_oor_many(ctx, init, pal, n0, rows0, pend)
+            if shard.get("oor", True):
+                check_oor_many(ctx, init, pal, n0, rows0, pend)
         frontier = nxt
 
 
